@@ -397,6 +397,11 @@ def run(ctx):
         ds = [a for a in fxu.find(domain="comb") if a.t == f"slave.{chn}.addr[slave_align:]"]
         ok = len(ds) == 1 and ds[0].v == f"master.{chn}.addr[slave_align:]" and not ds[0].guards
         ctx.ob("B11", AL, "AXILiteUpConverter", f"{chn}: wide-word address bits forwarded", ok, "" if ok else f"{[(a.t, a.v) for a in ds]}", ds[0].line if ds else 0)
+    # ================================================================ B13 port address of axi_lite_to_simple (shared with C14.E9)
+    # the word a delayed write lands in is the one named by the address accepted with AW: replayed from a register while the data
+    # is awaited, never read again from the AW channel after aw.ready was given
+    from .c14 import _axi_lite_port_address
+    _axi_lite_port_address(ctx, "B13")
     # ================================================================ B12 AXI-Lite down-converter lanes
     ctx.rule("B12", "AXI-Lite down-converter: sub-word `counter` of the wide word goes to / comes from narrow address addr + counter * "
                     "(narrow bytes): write data / strobes taken from lane counter (bounds evaluated numerically), read data shifted in "
